@@ -960,10 +960,61 @@ func ruleMarkers(c *Ctx) {
 		var hdrPos []token.Pos
 		var lits []string
 		var litPos []token.Pos
+		// a local closure that forwards its parameter to writeHeader (putHeader := func(prefix byte) ... w.writeHeader(prefix, s)):
+		// its call sites are the header call sites
+		forwarders := map[types.Object]int{}
+		inForwarder := map[*ast.CallExpr]bool{}
+		ast.Inspect(wr.Body, func(n ast.Node) bool {
+			as, ok := n.(*ast.AssignStmt)
+			if !ok || len(as.Lhs) != 1 || len(as.Rhs) != 1 {
+				return true
+			}
+			fl, ok := unparen(as.Rhs[0]).(*ast.FuncLit)
+			id, ok2 := as.Lhs[0].(*ast.Ident)
+			if !ok || !ok2 || fl.Type.Params == nil {
+				return true
+			}
+			var params []types.Object
+			for _, f := range fl.Type.Params.List {
+				for _, nm := range f.Names {
+					params = append(params, p.TypesInfo.Defs[nm])
+				}
+			}
+			ast.Inspect(fl.Body, func(m ast.Node) bool {
+				c2, ok := m.(*ast.CallExpr)
+				if !ok || calleeOf(p, c2) != whObj || len(c2.Args) < 1 {
+					return true
+				}
+				if a, ok := unparen(c2.Args[0]).(*ast.Ident); ok {
+					for i, po := range params {
+						if po != nil && p.TypesInfo.Uses[a] == po {
+							forwarders[p.TypesInfo.ObjectOf(id)] = i
+							inForwarder[c2] = true
+						}
+					}
+				}
+				return true
+			})
+			return true
+		})
 		ast.Inspect(wr.Body, func(n ast.Node) bool {
 			call, ok := n.(*ast.CallExpr)
 			if !ok {
 				return true
+			}
+			if inForwarder[call] {
+				return true
+			}
+			if fid, ok := unparen(call.Fun).(*ast.Ident); ok {
+				if pi, isF := forwarders[p.TypesInfo.ObjectOf(fid)]; isF && pi < len(call.Args) {
+					if k, ok := constInt(p, call.Args[pi]); ok {
+						hdr = append(hdr, k)
+					} else {
+						hdr = append(hdr, -1)
+					}
+					hdrPos = append(hdrPos, call.Pos())
+					return true
+				}
 			}
 			if calleeOf(p, call) == whObj && len(call.Args) >= 1 {
 				if k, ok := constInt(p, call.Args[0]); ok {
@@ -1337,6 +1388,66 @@ func ruleCaseFold(c *Ctx, rule string) {
 				c.ok(rule, key, call.Pos(), "the non-ASCII test is applied to the definition parameter itself")
 			} else {
 				c.bad(rule, key, call.Pos(), "the non-ASCII test is applied to a string that may already have been case-folded: folding maps some non-ASCII letters to ASCII ones (the Kelvin sign to k), so such a definition is accepted although the alphabet is meant to be ASCII only")
+			}
+		}
+	}
+	// or a helper of the package that tests the letters of its string parameter (isASCII(letters))
+	for _, b := range fn.Blocks {
+		for _, ins := range b.Instrs {
+			call, ok := ins.(*ssa.Call)
+			if !ok {
+				continue
+			}
+			g := call.Call.StaticCallee()
+			if g == nil || g.Pkg != fn.Pkg || g.Blocks == nil {
+				continue
+			}
+			pi := -1
+			for _, gb := range g.Blocks {
+				for _, gi := range gb.Instrs {
+					bo, ok := gi.(*ssa.BinOp)
+					if !ok {
+						continue
+					}
+					if k, isK := constIntVal(bo.Y); !isK || k != 127 {
+						continue
+					}
+					var str ssa.Value
+					for v, d := bo.X, 0; d < 5 && str == nil; d++ {
+						switch x := v.(type) {
+						case *ssa.Extract:
+							if nx, ok := x.Tuple.(*ssa.Next); ok {
+								if rng, ok := nx.Iter.(*ssa.Range); ok {
+									str = rng.X
+								}
+							}
+							d = 5
+						case *ssa.Lookup:
+							str = x.X
+							d = 5
+						case *ssa.Index:
+							str = x.X
+							d = 5
+						case *ssa.Convert:
+							v = x.X
+						default:
+							d = 5
+						}
+					}
+					if prm, ok := str.(*ssa.Parameter); ok {
+						pi = paramIndex(g, prm)
+					}
+				}
+			}
+			if pi < 0 || pi >= len(call.Call.Args) {
+				continue
+			}
+			nAscii++
+			key := "alphabet.newAlphabet/ascii-test-on-the-definition-as-given"
+			if call.Call.Args[pi] == ssa.Value(letters) {
+				c.ok(rule, key, call.Pos(), "the non-ASCII test ("+g.Name()+") is applied to the definition parameter itself")
+			} else {
+				c.bad(rule, key, call.Pos(), "the non-ASCII test ("+g.Name()+") is applied to a string that may already have been case-folded: folding maps some non-ASCII letters to ASCII ones (the Kelvin sign to k), so such a definition is accepted although the alphabet is meant to be ASCII only")
 			}
 		}
 	}
